@@ -694,6 +694,9 @@ def wr1(F, R):
         a = fn.term_of_operand(sk[0][1]["args"][1], sk[0][0])
         oks = tmatch(a, ("bin", "Add", ("place", "_"), ("cast", "_"))) is not None and "current_offset" in tstr(a)
     R.require(oks, fn, "advance-offset", "the file offset must become current_offset + to_copy", fn.loc(0))
+    other_seeks = [b for b, t in fn.calls() if call_matches(t, ("FileInfo::seek_from_end", "FileInfo::seek_from_current"))]
+    pos_stores = [(b, i) for b, i, s in fn.stmts() if s["k"] == "Assign" and s["p"]["proj"] and [e[2] for e in s["p"]["proj"] if e[0] == "field"][-1:] == ["current_offset"]]
+    R.require(not other_seeks and not pos_stores, fn, "writes-at-current-offset", "write() moves the file position by other means than seek_from_start(current_offset + to_copy) after a block is written (e.g. jumps to the end first): the data must go where the handle's offset is, in every open mode", fn.loc(other_seeks[0]) if other_seeks else fn.loc(0))
     ul = [(b, t) for b, t in fn.calls() if call_matches(t, ("FileInfo::update_length",))]
     okl = len(ul) == 1 and sk and tstr(fn.term_of_operand(ul[0][1]["args"][1], ul[0][0])) == tstr(fn.term_of_operand(sk[0][1]["args"][1], sk[0][0]))
     R.require(okl, fn, "length=new_offset", "the recorded length must become the new offset when the file grows", fn.loc(0))
